@@ -28,6 +28,7 @@ import (
 	"verif/fwd"
 	"verif/media"
 	"verif/seqx"
+	"verif/vrt"
 )
 
 type op struct {
@@ -607,7 +608,7 @@ func main() {
 	t0 := time.Now()
 	o := core.ParseFlags(90, 1200)
 	res := &core.Result{Property: "C03", Tier: o.Tier,
-		Technique: "explicit-state BFS over forwarding histories interleaved with NACKs, delivered as RTCP to the real rtcpDownListener; retransmissions compared byte for byte with the first transmission"}
+		Technique: "explicit-state BFS over forwarding histories interleaved with NACKs, delivered as RTCP to the real rtcpDownListener; retransmissions compared byte for byte with the first transmission; preemption-bounded schedule enumeration (vector-clock race monitor) of gotNACK against the publisher storing and forwarding at the cache's eviction boundary"}
 	if o.Replay != "" {
 		replay(o.Replay)
 		return
@@ -644,6 +645,9 @@ func main() {
 			res.AddSub(*a)
 		}
 	}
+	if core.Want("conc") {
+		runConcurrent(res, o.Shard, o.Shards)
+	}
 	core.Finish(res, t0)
 }
 
@@ -655,12 +659,30 @@ func replay(path string) {
 	}
 	var a struct {
 		Replay struct {
-			Config string `json:"config"`
-			Ops    []op   `json:"ops"`
+			Config  string `json:"config"`
+			Ops     []op   `json:"ops"`
+			Program string `json:"program"`
+			Choices []int  `json:"choices"`
 		} `json:"replay"`
 	}
 	if err := json.Unmarshal(data, &a); err != nil {
 		fmt.Println(err)
+		os.Exit(2)
+	}
+	if a.Replay.Program != "" {
+		fwd.Init()
+		for _, p := range concPrograms() {
+			if p.Name == a.Replay.Program {
+				_, out, v := vrt.ReplayChoices(p, a.Replay.Choices)
+				if v != nil {
+					fmt.Printf("VIOLATION property=C03 replay=%s\n  %s\n", path, v.What)
+					os.Exit(1)
+				}
+				fmt.Println("replay: no violation; outcome", out)
+				return
+			}
+		}
+		fmt.Println("unknown program")
 		os.Exit(2)
 	}
 	parts := strings.SplitN(a.Replay.Config, "/start", 2)
